@@ -1,6 +1,7 @@
 #!/bin/bash
 # usage: mut.sh <prop> <sed-expr> <file>   -- applies a one-line mutant to /repo, runs the check, reverts
 P=$1; E=$2; F=$3
+if [ -n "$(git -C /repo status --porcelain)" ]; then echo "REPO DIRTY - refusing"; exit 3; fi
 cd /repo && sed -i "$E" $F && git diff --stat | tail -1
 cd /verif && ./pzv check $P 2>&1 | grep -A1 "^VIOLATION" | grep "rule=" | cut -c1-260
 cd /verif && ./pzv check $P 2>&1 | tail -1
